@@ -709,6 +709,7 @@ func diffApp(want, got appView) []appDiff {
 	cmpS("balance", want.Balances, got.Balances)
 	cmpS("storage", want.Storage, got.Storage)
 	cmpS("kv", want.KV, got.KV)
+	cmpS("kv-update-history", want.KVHistory, got.KVHistory)
 	cmpS("receipt", want.Receipts, got.Receipts)
 	return out
 }
